@@ -115,3 +115,7 @@ pub fn wrapping_nn_shifts(
     let rtree = crate::rtree_nn::build_rtree(generators);
     crate::rtree_nn::wrapping_nn_iter(&rtree, loc, width, dimensionality).take(take).collect()
 }
+
+#[cfg(kani)]
+#[path = "/verif/kani/mod.rs"]
+mod kani_harnesses;
